@@ -28,6 +28,12 @@ pub struct RuleCfg {
 pub struct Cfg {
     pub rules: Vec<RuleCfg>,
     pub phase: u64,
+    /// a fixed history instead of the explored alphabet (n, r, m): n inbound entries complete together
+    /// after r ms (best completed rate 2n/s, minimum response time r), then m inbound entries are
+    /// held in flight, the load/CPU reading is raised and one more inbound entry is requested:
+    /// reaches "in flight == estimated capacity" exactly, which lies deeper than the explored bound
+    #[serde(default)]
+    pub script: Option<(u32, u64, u32)>,
 }
 
 #[derive(Clone, Debug)]
@@ -61,11 +67,13 @@ pub struct C09 {
     rejects: u32,
     outbound: u32,
     bbr_spared: u64,
+    step_no: usize,
+    at_capacity: u64,
 }
 
 impl C09 {
     pub fn new(cfg: &Cfg) -> Self {
-        C09 { cfg0: cfg.clone(), cfg: cfg.clone(), ledger: Ledger::default(), open: vec![], load: 0.0, cpu: 0.0, admits: 0, rejects: 0, outbound: 0, bbr_spared: 0 }
+        C09 { cfg0: cfg.clone(), cfg: cfg.clone(), ledger: Ledger::default(), open: vec![], load: 0.0, cpu: 0.0, admits: 0, rejects: 0, outbound: 0, bbr_spared: 0, step_no: 0, at_capacity: 0 }
     }
     /// observed value of the rule's metric at time t, and whether it trips
     fn eval(&mut self, r: &RuleCfg, t: u64) -> (f64, bool) {
@@ -93,6 +101,9 @@ impl C09 {
                     let over = conc > 1.0 && conc > max_complete * min_rt / 1000.0;
                     if !over {
                         self.bbr_spared += 1;
+                    }
+                    if conc > 1.0 && conc == max_complete * min_rt / 1000.0 {
+                        self.at_capacity += 1;
                     }
                     trip = over;
                 }
@@ -140,9 +151,31 @@ impl Subject for C09 {
         self.rejects = 0;
         self.outbound = 0;
         self.bbr_spared = 0;
+        self.step_no = 0;
+        self.at_capacity = 0;
         self.load_rules();
     }
     fn enabled(&self) -> Vec<Op> {
+        if let Some((n, r, m)) = self.cfg0.script {
+            let mut ops = vec![];
+            for _ in 0..n {
+                ops.push(Op::Build { inbound: true });
+            }
+            ops.push(Op::Advance(r));
+            for _ in 0..n {
+                ops.push(Op::Exit(0));
+            }
+            for _ in 0..m {
+                ops.push(Op::Build { inbound: true });
+            }
+            if self.cfg0.rules[0].metric == Metric::Load {
+                ops.push(Op::SetLoad(0.9));
+            } else {
+                ops.push(Op::SetCpu(90.0));
+            }
+            ops.push(Op::Build { inbound: true });
+            return ops.get(self.step_no).cloned().into_iter().collect();
+        }
         let mut v = vec![Op::Build { inbound: true }, Op::Build { inbound: false }];
         for i in 0..self.open.len().min(4) {
             v.push(Op::Exit(i));
@@ -185,6 +218,7 @@ impl Subject for C09 {
         v
     }
     fn step(&mut self, op: &Op) -> Result<(), String> {
+        self.step_no += 1;
         let t = now_ms();
         match op {
             Op::Advance(d) => advance_ms(*d),
@@ -266,7 +300,7 @@ impl Subject for C09 {
         format!("a{}r{}o{}", self.admits.min(4), self.rejects.min(4), self.outbound.min(2))
     }
     fn counters(&self) -> Vec<(&'static str, u64)> {
-        vec![("bbr_spared_a_request_above_threshold", self.bbr_spared)]
+        vec![("bbr_spared_a_request_above_threshold", self.bbr_spared), ("bbr_decisions_with_in_flight_equal_to_capacity", self.at_capacity)]
     }
 }
 
@@ -280,7 +314,7 @@ pub fn configs(thorough: bool) -> Vec<Cfg> {
                     continue;
                 }
                 k += 1;
-                v.push(Cfg { rules: vec![RuleCfg { metric, bbr, threshold }], phase: [0, 499, 1, 250][(k % 4) as usize] });
+                v.push(Cfg { rules: vec![RuleCfg { metric, bbr, threshold }], phase: [0, 499, 1, 250][(k % 4) as usize], script: None });
             }
         }
     }
@@ -296,26 +330,42 @@ pub fn configs(thorough: bool) -> Vec<Cfg> {
             if !thorough && ba && !matches!(a, Metric::Load | Metric::CpuUsage) {
                 continue;
             }
-            v.push(Cfg { rules: vec![RuleCfg { metric: a, bbr: ba, threshold: ta }, RuleCfg { metric: b, bbr: bb, threshold: tb }], phase: 250 });
+            v.push(Cfg { rules: vec![RuleCfg { metric: a, bbr: ba, threshold: ta }, RuleCfg { metric: b, bbr: bb, threshold: tb }], phase: 250, script: None });
         }
     }
     // two rules of the same metric (they share one bucket of the manager's map): the tighter one decides
     for (m, a, b) in [(Metric::Concurrency, 3.0, 1.0), (Metric::InboundQPS, 1.0, 3.0), (Metric::AvgRT, 10.0, 1.0), (Metric::Load, 0.5, 0.0)] {
-        v.push(Cfg { rules: vec![RuleCfg { metric: m, bbr: false, threshold: a }, RuleCfg { metric: m, bbr: false, threshold: b }], phase: 1 });
+        v.push(Cfg { rules: vec![RuleCfg { metric: m, bbr: false, threshold: a }, RuleCfg { metric: m, bbr: false, threshold: b }], phase: 1, script: None });
     }
     // two rules of the same metric with DIFFERENT strategies: the adaptive one (lower threshold) may
     // spare a request that the plain one (higher threshold) must still reject
     for (m, lo, hi) in [(Metric::Load, 0.25, 0.5), (Metric::CpuUsage, 0.5, 1.0)] {
-        v.push(Cfg { rules: vec![RuleCfg { metric: m, bbr: true, threshold: lo }, RuleCfg { metric: m, bbr: false, threshold: hi }], phase: 0 });
-        v.push(Cfg { rules: vec![RuleCfg { metric: m, bbr: false, threshold: hi }, RuleCfg { metric: m, bbr: true, threshold: lo }], phase: 250 });
+        v.push(Cfg { rules: vec![RuleCfg { metric: m, bbr: true, threshold: lo }, RuleCfg { metric: m, bbr: false, threshold: hi }], phase: 0, script: None });
+        v.push(Cfg { rules: vec![RuleCfg { metric: m, bbr: false, threshold: hi }, RuleCfg { metric: m, bbr: true, threshold: lo }], phase: 250, script: None });
+    }
+    // scripted histories that reach "in flight == estimated capacity" under BBR
+    for metric in [Metric::Load, Metric::CpuUsage] {
+        for (n, r) in [(1u32, 500u64), (1, 1000), (2, 250), (2, 500), (3, 250), (3, 500), (1, 250), (2, 1000)] {
+            for m in 1..=3u32 {
+                v.push(Cfg { rules: vec![RuleCfg { metric, bbr: true, threshold: 0.25 }], phase: 0, script: Some((n, r, m)) });
+            }
+        }
     }
     // an invalid rule next to a valid one must be ignored
-    v.push(Cfg { rules: vec![RuleCfg { metric: Metric::Load, bbr: false, threshold: 2.0 }, RuleCfg { metric: Metric::Concurrency, bbr: false, threshold: 1.0 }], phase: 0 });
+    v.push(Cfg { rules: vec![RuleCfg { metric: Metric::Load, bbr: false, threshold: 2.0 }, RuleCfg { metric: Metric::Concurrency, bbr: false, threshold: 1.0 }], phase: 0, script: None });
     v
 }
 
 pub fn run(o: &Opts, stats: &mut Stats) -> Option<usize> {
     let cfgs = configs(o.thorough);
     let thorough = o.thorough;
-    run_configs(o, stats, &cfgs, |c, _| C09::new(c), &move |_c: &Cfg| if thorough { vec![Pass { depth: 7, max_dev: 4 }] } else { vec![Pass { depth: 6, max_dev: 3 }] })
+    run_configs(o, stats, &cfgs, |c, _| C09::new(c), &move |c: &Cfg| {
+        if c.script.is_some() {
+            vec![Pass { depth: 14, max_dev: 0 }]
+        } else if thorough {
+            vec![Pass { depth: 7, max_dev: 4 }]
+        } else {
+            vec![Pass { depth: 6, max_dev: 3 }]
+        }
+    })
 }
